@@ -911,6 +911,7 @@ def ro_eval(case):
     if getattr(o.p, "readOnly", False) is not True:
         bad("readonly-flag-not-set", "p.readOnly is not set after makeParametersReadOnly")
     own0 = observe._params(o, False, set())
+    accepted = False
     for j, pd in enumerate(o.p.paramDefs):
         if only and only != pd.name:
             continue
@@ -926,6 +927,7 @@ def ro_eval(case):
             own1 = observe._params(o, False, set())
             d = observe.diff(own0, own1)
             if exc is None:
+                accepted = True
                 bad("readonly-assignment-accepted", "assignment %s = %s is not refused%s" % (pd.name, _short(v), "; value changed: %s" % d[:2] if d else ""), only=pd.name)
             elif d:
                 bad("readonly-assignment-refused-but-value-changed", "assignment %s = %s raises %s but %s" % (pd.name, _short(v), exc, d[:2]), only=pd.name)
@@ -936,7 +938,7 @@ def ro_eval(case):
         x = d[0]
         bad("readonly-assignment-changed-reactor", "after assigning every parameter: %s %s at %s: %s -> %s" % (x[0], x[1], x[2], _short(x[3]), _short(x[4])))
         root0 = raw(r)
-    if not only:
+    if not only and not accepted:  # accepted test values would make the mutators meaningless
         f0 = full(r)
         for name, f in _mutators(o):
             stats["mutators"] += 1
